@@ -95,6 +95,10 @@ pub struct EffSpec {
     pub kind: EffKind,
     pub panics: bool,
     pub stall: Stall,
+    /// client-style operations executed inside the effect body (Task / Thunk / Function), logged
+    /// like client ops with thread index 1000 + effect id
+    #[serde(default)]
+    pub ops: Vec<Op>,
 }
 
 /// Per-action script: how every scripted component reacts to this action.
@@ -223,6 +227,13 @@ pub enum Op {
     Unsubscribe { store: StoreIx, sub: SubId },
     /// create an iterator, signal `ready` (if any), then consume it on this thread
     Iter { store: StoreIx, it: u32, consume: Consume, ready: Option<GateId> },
+    /// split iterator API: the iterator stays open across other calls of the owning thread
+    IterOpen { store: StoreIx, it: u32, ready: Option<GateId> },
+    /// up to k items (ends early, with two more next() calls, if None comes first)
+    IterTake { it: u32, k: u32 },
+    IterDrain { it: u32 },
+    /// drop the iterator if it is still open
+    IterClose { it: u32 },
     AddReducer { store: StoreIx, comp: CompId },
     AddMiddleware { store: StoreIx, comp: CompId },
     Close { store: StoreIx },
